@@ -295,6 +295,18 @@ class Sp:
     def abs(self):
         return NAN if self.k == "nan" else INF
 
+    # formula-level comparisons (used by harness obligations): an IEEE special is never equal / ordered w.r.t. a finite term
+    def eqz(self, o):
+        return z3.BoolVal(isinstance(o, Sp) and o.k == self.k and self.k != "nan")
+
+    def lez(self, o):
+        return z3.BoolVal(False)
+
+    ltz = lez
+
+    def z(self):
+        raise Inconclusive(f"IEEE special {self.k} has no solver term")
+
     def sqrt(self):
         return self if self.k in ("nan", "inf") else NAN
 
